@@ -173,6 +173,18 @@ template<typename T, size_t A0, size_t A1, size_t A2> void c_es(unsigned seed) {
       for (size_t i=0;i<A0;++i) for (size_t l=0;l<A0;++l) { T s=0; for (size_t j=0;j<A1;++j) for (size_t k=0;k<A2;++k) s += A(i,j)*B(j,k)*C3(k,l); ref[i*A0+l]=s; }
       emit_exact(S<T>::id("es3-ij,jk,kl", {(long)A0,(long)A1,(long)A2}), C.data(), ref, A0*A0); }
 }
+// four operands of different ranks: ij,jk,klm,mn -> iln (with FASTOR_DONT_PERFORM_OP_MIN this is the single-loop evaluation of
+// network_contraction_no_opmin.h, whose per-operand offset computations only differ when the ranks differ)
+template<typename T, size_t A0, size_t A1, size_t A2> void c_es4(unsigned seed) { g_seed = seed;
+    Tensor<T,A0,A1> A; Tensor<T,A1,A2> B; Tensor<T,A2,A1,A0> C; Tensor<T,A0,A2> D;
+    fill(A, seed, 5); fill(B, seed+1, 5); fill(C, seed+2, 5); fill(D, seed+3, 5);
+    auto R = einsum<Index<I_,J_>,Index<J_,K_>,Index<K_,L_,M_>,Index<M_,N_>>(A,B,C,D);   // (i,l,n): A0 x A1 x A2
+    T ref[A0*A1*A2];
+    for (size_t i=0;i<A0;++i) for (size_t l=0;l<A1;++l) for (size_t n=0;n<A2;++n) { T s=0;
+        for (size_t j=0;j<A1;++j) for (size_t k=0;k<A2;++k) for (size_t m=0;m<A0;++m) s += A(i,j)*B(j,k)*C(k,l,m)*D(m,n);
+        ref[(i*A1+l)*A2+n]=s; }
+    emit_exact(S<T>::id("es4-ij,jk,klm,mn", {(long)A0,(long)A1,(long)A2}), R.data(), ref, A0*A1*A2);
+}
 // five-operand chain with non-uniform extents (the cost model then has distinct costs per variant)
 template<typename T, size_t A0, size_t A1, size_t A2> void c_es5(unsigned seed) { g_seed = seed;
     Tensor<T,A0,A1> A; Tensor<T,A1,A2> B; Tensor<T,A2,A0> C; Tensor<T,A0,A2> D; Tensor<T,A2,A1> E;
